@@ -222,6 +222,50 @@ def run_c13(chk):
                 j += 1
             skip = j
         one(line, skip)
+    # the ranges an editor receives: the analyzer's token list of file line i is the tokenizer's list for THAT line, also
+    # behind lines that do not tokenize (missed seeded change C13-mut8: no list was recorded for such a line, so every
+    # later line's tokens were reported one file line too early, with ranges past its end)
+    from . import files as _files
+    pool = [ln for (sk, ln, _r) in cases if sk == 0 and b"\n" not in ln and b"\r" not in ln]
+    bad = [ln for (sk, ln, rsp) in cases if sk == 0 and parse_tok_resp(rsp)[1] and b"\n" not in ln and b"\r" not in ln]
+    for i in range(150 if chk.tier == "quick" else 3000):
+        r = rng.fork(("c13f", i))
+        flines = []
+        for j in range(r.below(5) + 2):
+            body = r.choice(bad) if bad and r.chance(0.3) else r.choice(pool)
+            kind = r.weighted([("numbered", 80), ("bare", 8), ("unnumbered", 6), ("blank", 6)])
+            flines.append({"numbered": b"%d " % (10 * (j + 1)) + body, "bare": b"%d" % (10 * (j + 1)), "unnumbered": b"PRINT 1", "blank": b""}[kind])
+        try:
+            text = b"\n".join(flines).decode("utf-8")
+        except UnicodeDecodeError:
+            continue
+        if not h.alive():
+            h.restart()
+        resp = h.cmd("analyze", esc(text.encode("utf-8")))
+        a = _files.parse_analysis(resp)
+        rep = {"file": text, "harness_commands": ["analyze\t" + esc(text.encode("utf-8"))], "response": resp[:600]}
+        chk.case(("file", text), sample={"file": text[:160]})
+        chk.count("analyzer-file")
+        if a is None:
+            chk.fail("analyzer-panic", f"analysing {text[:120]!r} -> {resp[:160]}", rep)
+            continue
+        if len(a["tokens"]) != len(flines):
+            chk.fail("analyzer-token-lists", f"{len(flines)} file lines but {len(a['tokens'])} token lists", rep)
+            continue
+        for li, fl in enumerate(flines):
+            k = 0
+            while k < len(fl) and fl[k:k + 1].isdigit():
+                k += 1
+            want = []
+            if k:
+                want.append((0, k))
+                toks, err, _ = parse_tok_resp(h.cmd("tok", k, esc(fl)))
+                if not err:
+                    want += [(x, y) for (_t, x, y) in toks]
+            got = [(x, y) for (_ty, x, y) in a["tokens"][li]]
+            if got != want:
+                chk.fail("analyzer-ranges-wrong-line", f"file line {li} {fl[:60]!r}: the analyzer reports ranges {got[:8]}, the tokenizer gives {want[:8]} for this line", rep)
+                break
     lexer_correspondence(chk, "C13-lexer", cases)
     h.close()
 
@@ -343,7 +387,7 @@ _HIST_RULE = ("adaptive, replayable host-call histories: optional generated prog
               "call list; non-trivial = more than 5 calls") % len(stateful.BOUNDARY_LINES)
 
 META.update({
-    "C01": {"run": stateful.run_c01, "rule": _HIST_RULE + "; plus deep-nesting probes (6 shapes x 9 depths, 10..20000/100000) each in a fresh process",
+    "C01": {"run": stateful.run_c01, "rule": _HIST_RULE + "; plus deep-nesting probes (8 shapes x 9 depths, 10..20000/100000; unary-operator runs 15 x as long) each in a fresh process",
             "trusted_base": TB_COMMON, "assumptions": ASSUME_COMMON + ["native stack: a nesting depth of 64 fits the stack (probed at the cap boundary, not proved)"]},
     "C16": {"run": stateful.run_c16, "rule": "20 cap-seeking programs (recursive GOSUB/FN, 34 FOR variables, DIM around 10000 cells, kind mismatches on every write path) + " + _HIST_RULE + "; invariant checked on the snapshot after EVERY call",
             "trusted_base": TB_COMMON, "assumptions": ASSUME_COMMON},
@@ -380,7 +424,7 @@ META.update({
 from . import files  # noqa: E402
 
 META.update({
-    "C05": {"run": files.run_c05, "rule": "15 fixed files (duplicate numbers whose later definition is empty / untokenizable, multi-byte illegal characters, CRLF, line 2^64-1, 5000-deep nesting) + generated files mixing numbered / unnumbered / blank / duplicated / emptied / untokenizable lines (28 odd line shapes) with generated program lines; per file: no panic, one token list per file line, every message mapped through map_to_source to a file line < number of lines and a byte range inside that line on character boundaries, token ranges ordered; the model's analysis (messages, mapped ranges, token classes and ranges) must equal the implementation's; distinct = distinct file text; non-trivial = more than one line",
+    "C05": {"run": files.run_c05, "rule": "17 fixed files (runs of 100000-300000 unary operators, duplicate numbers whose later definition is empty / untokenizable, multi-byte illegal characters, CRLF, line 2^64-1, 5000-deep nesting) + generated files mixing numbered / unnumbered / blank / duplicated / emptied / untokenizable lines (28 odd line shapes) with generated program lines; per file: no panic, one token list per file line, every message mapped through map_to_source to a file line < number of lines and a byte range inside that line on character boundaries, token ranges ordered; the model's analysis (messages, mapped ranges, token classes and ranges) must equal the implementation's; distinct = distinct file text; non-trivial = more than one line",
             "trusted_base": TB_COMMON, "assumptions": ASSUME_COMMON + ["symbol warnings are compared as a sorted multiset (HashMap iteration order)"]},
     "C06": {"run": files.run_c06, "rule": "generated programs, well-typed by construction or with one seeded kind / syntax / jump fault; analyzer verdict vs the error kinds over forced executions (conditions driven both ways by INPUT replies), straight-line lines executed fresh; model vs analyzer messages and run outcomes",
             "trusted_base": TB_COMMON, "assumptions": ASSUME_COMMON},
